@@ -290,6 +290,20 @@ def gen_tree(rng, cfg=None):
                         e2['override'] = {shared[0]: '0' * 8}
                         kind = 'conflict-hash'
             manifests[mp2]['entries'].append(e2)
+            if kind == 'compatible' and cfg.get('p_conflict', 0.3) > 0 and rng.random() < 0.2:
+                # three entries, compatibility is not transitive: the first and the third give different values for one
+                # hash name, the second lists only other names (so each neighbouring pair agrees)
+                h1 = rng.choice(G.SUPPORTED_HASHES)
+                dis = [h for h in G.SUPPORTED_HASHES if h != h1]
+                e['hashes'] = [h1]
+                e.pop('override', None)
+                e2['hashes'] = rng.sample(dis, rng.choice([1, 2]))
+                e2.pop('override', None)
+                mp3 = rng.choice([mp2, mp2, rng.choice(g)])
+                e3 = {'tag': tag2, 'path': os.path.relpath(vp, os.path.dirname(mp3) or '.'), 'hashes': [h1]}
+                (e if rng.random() < 0.5 else e3)['override'] = {h1: '0' * 8}
+                manifests[mp3]['entries'].append(e3)
+                kind = 'triple-nontransitive'
             dup_info.append((vp, kind))
     # MANIFEST entries for sub-Manifests: in a Manifest of a proper ancestor
     # directory, or (Gentoo layout) in another Manifest of the same directory
